@@ -12,7 +12,7 @@
 (* The grammar space is one table: six atoms, every operator over them     *)
 (* (level 1), every operator over atoms and level-1 expressions (level 2). *)
 (* Every node is a possible root.  Every node carries an action in each of *)
-(* the families 1..4 (void apply, void apply0, bool apply, bool apply0).   *)
+(* the families 1..7 (void / bool apply / apply0, throwing apply / apply0).*)
 (***************************************************************************)
 EXTENDS Integers, Sequences, FiniteSets, SequencesExt, TLC
 
@@ -32,7 +32,7 @@ vars == <<w, cfg, fr, cur, ret, exc, q, done, stk, cs, lastx, verd, cnt, n, ende
 
 Unary  == {"star", "plus", "opt", "at", "not_at"} \cup (IF ExcOps THEN {"must", "try_catch_return_false"} ELSE {})
 Binary == {"seq", "sor"}
-AK == 16 + 2 * 256 + 3 * 4096 + 4 * 65536       \* family f -> action kind f
+AK == 16 + 2 * 256 + 3 * 4096 + 4 * 65536 + 5 * 1048576 + 6 * 16777216 + 7 * 268435456      \* family f -> action kind f
 
 NodeRec(id, op, kids, p) ==
    [id |-> id, op |-> op, kids |-> kids, p |-> p, iop |-> op, ikids |-> kids, ip |-> p, en |-> 1, vid |-> id, ak |-> AK,
@@ -64,7 +64,7 @@ Fuel == 10
 Init ==
    /\ w \in Inputs
    /\ \E g \in {r \in (IF Levels >= 2 THEN (NA + Len(L1) + 1)..Len(GNodes) ELSE 1..Len(GNodes)) : r % Stride = Offset % Stride},
-         A \in (IF AllCfgs THEN {0, 1} ELSE {1}), MM \in {0, 1}, af \in (IF AllCfgs THEN 0..4 ELSE {0, 3}), cf \in (IF AllCfgs THEN {2, 4} ELSE {4}) :
+         A \in (IF AllCfgs THEN {0, 1} ELSE {1}), MM \in {0, 1}, af \in (IF AllCfgs THEN 0..7 ELSE {0, 3}), cf \in (IF AllCfgs THEN {2, 4} ELSE {4}) :
          cfg = [g |-> g, A |-> A, M |-> MM, af |-> af, cf |-> cf, eol |-> 3, ib |-> 0, il |-> 1, ic |-> 1]
    \* grammars that loop without progress on this input are C11's business
    /\ D!Den(cfg.g, 0, DenCtx, Fuel).k # "L"
